@@ -55,6 +55,7 @@ type ChainSt struct {
 	Ext     *ExtChain
 	Oracles []*OracleActor
 	Tokens  []*TokenInfo
+	Liar    string // oracle designated as the minority liar (fault minority-liar)
 }
 
 type BridgeSt struct {
@@ -200,6 +201,9 @@ func (BridgeEngine) GenConfig(rng *rand.Rand, prop string, tier string) RunConfi
 			rc.Weights[k] = (v + f - 1) / f
 		}
 	}
+	if prop == "C01" || prop == "C02" || prop == "C07" || prop == "C13" || prop == "C03" {
+		rc.Faults = appendUniq(rc.Faults, "offline-claims")
+	}
 	// property-specific bias
 	switch prop {
 	case "C07":
@@ -229,7 +233,10 @@ func (BridgeEngine) GenConfig(rng *rand.Rand, prop string, tier string) RunConfi
 		if rng.IntN(3) == 0 {
 			rc.Weights["flood"] = 3 // more queued transfers of one token than a batch can take
 		}
-		rc.Weights["race2"] = 4                               // only chains with two bridged tokens run it
+		rc.Weights["race2"] = 4 // only chains with two bridged tokens run it
+		if prop == "C06" && rng.IntN(2) == 0 {
+			rc.Faults = appendUniq(rc.Faults, "minority-liar")
+		}
 		rc.Faults = removeStr(rc.Faults, "conflicting-claim") // a lying quorum invalidates what these oracles assume about the external chain
 		rc.Weights["send"] *= 2
 		rc.Weights["batch"] *= 2
@@ -309,6 +316,12 @@ func (e BridgeEngine) setupSteps(r *Run, st *BridgeSt) []Step {
 		}
 	}
 	out = append(out, Step{Kind: "block", DtMs: 5000, N: 1, Txs: bonds})
+	if r.Prop == "C01" {
+		// a contract that re-enters the bridge (executeClaim through the precompile) from inside a bridge call
+		out = append(out, Step{Kind: "block", DtMs: 5000, N: 1, Txs: []Tx{
+			{K: "eth_call", S: "user/0", A: A("to", "", "data", hex.EncodeToString(InitCode(ForwarderRuntime())), "value", "0"), Gas: 3_000_000},
+		}})
+	}
 	if r.Prop == "C03" {
 		// a contract that records value and call data of every call, so that the data / memo / value
 		// fields of an executed bridge call are observable; the callback sender gets funds for the values
@@ -983,7 +996,13 @@ func (e BridgeEngine) applyGov(r *Run, s *Step, o *Outcome) {
 		if s.A.Has("slash_pct") {
 			p.SlashFraction = sdkmath.LegacyNewDecWithPrec(s.A.I64("slash_pct"), 2)
 		}
+		if s.A.Has("delegate_threshold_raw") {
+			p.DelegateThreshold.Amount = s.A.SdkInt("delegate_threshold_raw")
+		}
 		msgs = append(msgs, &cctypes.MsgUpdateParams{ChainName: c.Name, Authority: auth, Params: p})
+	case "alias":
+		// adds the alias if the denom does not have it, removes it if it does
+		msgs = append(msgs, &erc20types.MsgUpdateDenomAlias{Authority: auth, Denom: s.A.Str("denom"), Alias: s.A.Str("alias")})
 	case "toggle":
 		msgs = append(msgs, &erc20types.MsgToggleTokenConversion{Authority: auth, Token: s.A.Str("token")})
 	case "register_erc20":
@@ -1051,6 +1070,52 @@ func (e BridgeEngine) applyActorFault(r *Run, s *Step, o *Outcome) {
 // fields are incremented, booleans flipped, the first element of a slice is mutated.
 func mutateClaim(claim cctypes.ExternalClaim, field, val string) error {
 	rv := reflect.ValueOf(claim).Elem()
+	if strings.HasPrefix(field, "case:") {
+		// the same string in the other letter case
+		f := rv.FieldByName(strings.TrimPrefix(field, "case:"))
+		if !f.IsValid() || f.Kind() != reflect.String {
+			return fmt.Errorf("case: not a string field")
+		}
+		old := f.String()
+		nv := strings.ToUpper(old)
+		if nv == old {
+			nv = strings.ToLower(old)
+		}
+		if nv == old {
+			return fmt.Errorf("case: no letters")
+		}
+		f.SetString(nv)
+		return nil
+	}
+	if strings.HasPrefix(field, "swap:") {
+		// the first two elements of a list field exchanged (the parallel lists keep their order)
+		f := rv.FieldByName(strings.TrimPrefix(field, "swap:"))
+		if !f.IsValid() || f.Kind() != reflect.Slice || f.Len() < 2 {
+			return fmt.Errorf("swap: not a list of two or more")
+		}
+		a, b := f.Index(0), f.Index(1)
+		if reflect.DeepEqual(a.Interface(), b.Interface()) || fmt.Sprint(a.Interface()) == fmt.Sprint(b.Interface()) {
+			return fmt.Errorf("swap: equal elements")
+		}
+		tmp := reflect.New(a.Type()).Elem()
+		tmp.Set(a)
+		a.Set(b)
+		b.Set(tmp)
+		return nil
+	}
+	if strings.HasPrefix(field, "set:") {
+		// set a numeric field to the given value (the plain variant only adds one)
+		f := rv.FieldByName(strings.TrimPrefix(field, "set:"))
+		var n uint64
+		if !f.IsValid() || f.Kind() != reflect.Uint64 {
+			return fmt.Errorf("set: not a uint64 field")
+		}
+		if _, err := fmt.Sscan(val, &n); err != nil || n == f.Uint() {
+			return fmt.Errorf("set: bad value")
+		}
+		f.SetUint(n)
+		return nil
+	}
 	if field == "resplit" {
 		// val = "FieldA:FieldB:k": move the last k characters of A's rendering to the front of B's
 		var fa, fb string
